@@ -98,4 +98,28 @@ example :
     let s := run true (init [[[1]], [[2]]]) [0, 1, 1, 1, 0, 0, 0, 1, 1, 1, 1]
     s.done = [[1], [2]] ∧ visible s = [1, 2] := by decide
 
+/-! ## 2. The mutex is necessary -/
+
+/-- **C17 (b).**  The same program without `wmu` (`locked = false`): two
+writers, one one-byte packet each.  Both read the cursor before either commits,
+so both reserve `[0, 1)`; the second `Encode` overwrites the first packet and
+the second commit leaves the cursor where the first put it.  Two packets were
+committed, the consumer sees one byte: the stream is not the concatenation of
+the committed packets. -/
+theorem C17_unlocked_counterexample :
+    let s := run false (init [[[1]], [[2]]]) [0, 1, 0, 1, 0, 1, 0, 1]
+    s.done = [[1], [2]] ∧ visible s = [2] ∧ visible s ≠ s.done.flatten := by decide
+
+/-- the same schedule under the lock (thread 1 is refused until thread 0 has
+committed) delivers both packets -/
+example :
+    let s := run true (init [[[1]], [[2]]]) [0, 1, 0, 1, 0, 1, 0, 1, 1, 1, 1]
+    s.done = [[1], [2]] ∧ visible s = [1, 2] := by decide
+
+/-- without the lock a packet can also be torn: the one committed packet is
+`[1, 2, 3]`, the consumer sees its first byte replaced by the other writer's -/
+example :
+    let s := run false (init [[[1, 2, 3]], [[9]]]) [0, 1, 0, 1, 0, 1, 0]
+    s.done = [[1, 2, 3]] ∧ visible s = [9, 2, 3] := by decide
+
 end Mqtt.Properties.C17
